@@ -24,16 +24,42 @@ class Inconclusive(Exception):
 
 def ensure_deps():
     """Install icontract beside the repository's interpreter (offline wheelhouse)
-    if a fresh restore left /verif/.deps absent."""
-    if os.path.isdir(os.path.join(DEPS, 'icontract')):
+    if a fresh restore left /verif/.deps absent.  Safe to call from many processes at
+    once: one installs (into a scratch folder, moved into place name by name, icontract
+    itself last), the others wait for it."""
+    marker = os.path.join(DEPS, 'icontract', '__init__.py')
+    if os.path.isfile(marker):
         return True
+    import fcntl
+    import shutil
+    import tempfile
     try:
-        subprocess.run([sys.executable, '-m', 'pip', 'install', '--quiet', '--no-index',
-                        '--find-links', WHEELS, '--target', DEPS, 'icontract'],
-                       check=True, stdout=subprocess.DEVNULL, stderr=subprocess.DEVNULL, timeout=300)
+        lock = open(DEPS + '.lock', 'w')
+    except OSError:
+        return False
+    try:
+        fcntl.flock(lock, fcntl.LOCK_EX)
+        if os.path.isfile(marker):
+            return True
+        tmp = tempfile.mkdtemp(prefix='.deps_tmp_', dir=VERIF)
+        try:
+            subprocess.run([sys.executable, '-m', 'pip', 'install', '--quiet', '--no-index',
+                            '--find-links', WHEELS, '--target', tmp, 'icontract'],
+                           check=True, stdout=subprocess.DEVNULL, stderr=subprocess.DEVNULL, timeout=900)
+            os.makedirs(DEPS, exist_ok=True)
+            names = sorted(os.listdir(tmp), key=lambda n: n == 'icontract')
+            for name in names:
+                dst = os.path.join(DEPS, name)
+                if os.path.exists(dst):
+                    shutil.rmtree(dst, ignore_errors=True) if os.path.isdir(dst) else os.remove(dst)
+                os.rename(os.path.join(tmp, name), dst)
+        finally:
+            shutil.rmtree(tmp, ignore_errors=True)
     except Exception:
         return False
-    return os.path.isdir(os.path.join(DEPS, 'icontract'))
+    finally:
+        lock.close()
+    return os.path.isfile(marker)
 
 
 def setup(need_deps=False):
